@@ -234,7 +234,7 @@ func serverStages() ([]*c06Send, error) {
 				atomic.StoreInt32(&pauseRead, 1)
 				time.Sleep(time.Millisecond)
 				fill, fc := context.WithTimeout(context.Background(), time.Second)
-				_ = sc.SendMessage(fill, textMessage("fill", strings.Repeat("x", 8000)))
+				_ = sc.SendMessage(fill, textMessage("fill", strings.Repeat("x", 8132)))
 				fc()
 				fctx, fcancel := context.WithTimeout(context.Background(), 100*time.Millisecond)
 				if st.after == "finish-blocked" {
